@@ -25,7 +25,8 @@ ASSUMPTIONS = [
     "chain lengths enumerated N = 1..5 (quick) / 1..7 (thorough); scales, factor, norms are symbolic reals",
 ]
 NOT_DECIDED = [
-    "site tensors ARE isometries / Schmidt values equal those of the dense state / entropies (LAPACK, floating point)",
+    "site tensors ARE isometries / Schmidt values equal those of the dense state / reported truncation error equals the dense distance "
+    "(LAPACK, floating point): only the BOUNDED stand-in h_mps_numeric -- not a proof",
     "unit norm of the state after normalize=True (needs the isometry property); proved instead: the state is proportional to the "
     "original and factor == 1",
 ]
@@ -210,6 +211,11 @@ def h_truncate_requires_opts(V):
     V.check('missing-opts_svd-rejected', out.exc is not None and isinstance(out.exc, YastnError))
 
 
+import contracts.mps_bounded as MB
+from contracts.mps_bounded import h_mps_numeric
+BOUNDED_HARNESSES = {'h_mps_numeric'}
+
+
 def units(tier):
     U = []
     th = tier == 'thorough'
@@ -236,4 +242,5 @@ def units(tier):
                         U.append(('h_diagonalize', f"N={N},bond={bond},normalize={normalize},binding={binding},policy=lowrank",
                                   dict(N=N, bond=bond, normalize=normalize, binding=binding, policy='lowrank')))
     U.append(('h_truncate_requires_opts', 'x', {}))
+    U = U + MB.units(tier)
     return U
